@@ -2049,6 +2049,11 @@ class _GroupElem(ABC):
         connect = self._global_to_local_nodes[self.connect]
         coord = self.coord
 
+        # elements are visited in ascending order: for a point shared by several elements the
+        # reference coordinates kept are those of the last element visited, and the callers
+        # pair them with the detected element of highest index
+        elements_e = np.sort(np.asarray(elements_e, dtype=int))
+
         # Initialize lists
         detectedNodes = np.full(coordinates_n.shape[0], None)
         # Elements where nodes have been identified
